@@ -370,6 +370,13 @@ def run(ctx):
     # ---- R-C08.10 write-side forwarding table
     write_forwarding(ctx, "R-C08.10")
 
+    # ---- cross-cutting disciplines (rules/discipline.py)
+    from .. import discipline as D
+    # a failed commit is never acknowledged
+    D.error_discipline(ctx, "R-C08.11", scope=lambda f: f.startswith(("tx::", "<tx::", "batch::")))
+    # commit applies every final write
+    D.loops_visit_all(ctx, "R-C08.12", only=("tx::write_tx::BaseTransaction::commit", "batch::WriteBatch::commit"))
+
     # ---- borrowed obligations (mechanisms owned by other properties that this property's verdict also rests on)
     # commit applies all at once: no exit between the first applied item and the publish
     ctx.borrow("C03", ["R-C03.10"], "R-C08.8")
@@ -439,4 +446,21 @@ def write_forwarding(ctx, rule):
                     ("the helper can return after the operation without committing: the write is acknowledged and dropped with the transaction" if skipc or not after
                      else "the commit's result is discarded: a failed (conflicting / poisoned) commit is acknowledged")
             ctx.ob(rule, fn, "helper-%s-commits" % op, okc, detailc, fn.loc(cm[0][0]) if cm else "")
+            # optimistic helpers retry on a conflict: the value is returned on the commit's OK edge and the CONFLICT edge loops
+            if cm and "optimistic" in fid:
+                isok = [b for b, t in fn.calls() if A.cname(t).endswith(("Result::<T, E>::is_ok", "Result::<T, E>::is_err"))]
+                for c in isok:
+                    sw = A.switch_after_call(fn, c)
+                    if sw is None:
+                        continue
+                    zero, true_t = A.bool_edges(fn, sw)
+                    neg = A.cname(fn.term(c)).endswith("is_err")
+                    okedge, conflict = (zero, true_t) if neg else (true_t, zero)
+                    heads = [b for b, t in fn.calls() if A.cname(t).endswith("write_tx") and A.in_cycle(fn, b)]
+                    ret_on_ok = any(x in A.reach(fn, list(okedge), avoid=heads) for x in fn.return_blocks())
+                    ret_on_conflict = any(x in A.reach(fn, list(conflict), avoid=heads) for x in fn.return_blocks())
+                    okr = ret_on_ok and not ret_on_conflict and bool(heads)
+                    ctx.ob(rule, fn, "helper-%s-returns-only-after-a-successful-commit" % op, okr,
+                           "returns on the commit's Ok edge, retries (new transaction) on Conflict" if okr else
+                           "the helper returns its result when the commit CONFLICTED (nothing was written) and/or retries after a successful one (the operation is applied twice)", fn.loc(c))
     ctx.floor(rule, "write methods of the transaction wrappers and tx keyspace helpers", n, 24)
